@@ -50,7 +50,7 @@ type PodPlan struct {
 	EnvRef       bool     `json:"envRef"` // container spec already carries NVIDIA_VISIBLE_DEVICES from the capabilities ConfigMap
 	BRDelayUs    int      `json:"brDelayUs"`
 	BindFailures int      `json:"bindFailures"` // the first k pods/binding calls for this pod are rejected
-	// Fate: stay | succeeded | succeeded-unseen | failed | rejected | delete-after-run | delete-at
+	// Fate: stay | succeeded | succeeded-unseen | failed | rejected | delete-after-run | delete-graceful | delete-at
 	Fate         string `json:"fate"`
 	FateDelayUs  int    `json:"fateDelayUs"`            // after the pod became Running (succeeded/failed/delete-after-run)
 	DeleteAtUs   int    `json:"deleteAtUs,omitempty"`   // absolute, fate delete-at
@@ -145,8 +145,10 @@ func genPlan(seed int64, index int, tier string) *Plan {
 			pp.Fate = "failed"
 		case x < 60:
 			pp.Fate = "rejected" // Pending -> Failed: the kubelet rejects the bound pod (admission error, eviction before start)
-		case x < 75:
+		case x < 68:
 			pp.Fate = "delete-after-run"
+		case x < 75:
+			pp.Fate = "delete-graceful" // deleted while running: terminating (deletionTimestamp set, still Running) for a grace period, then gone
 		default:
 			pp.Fate = "delete-at"
 			pp.DeleteAtUs = 1 + r.IntN(30000)
